@@ -4,14 +4,17 @@ import Zstd.Proofs.FrameDecoderDrain
 Helper lemmas about the loops of the frame decoder: `decode_blocks`, `decode_from_to`, `decode_all`,
 `StreamingDecoder::read` — invariants, exact consumption, fuel, memory bounds, truncation.
 -/
+set_option linter.unusedSectionVars false
 namespace Zstd.Model
 open Zstd
 
+variable {σ : Type} [BlockDec σ] [BlockContract σ]
+
 /-- the invariant of reachable states: the stored checksum is only set once the last block is in -/
-def FState.WF (st : FState) : Prop := st.finished = false → st.checksum = none
+def FState.WF (st : FState σ) : Prop := st.finished = false → st.checksum = none
 
 /-- what a run of the block loop does to the state, whatever the outcome -/
-structure LoopStep (st st' : FState) : Prop where
+structure LoopStep (st st' : FState σ) : Prop where
   header : st'.header = st.header
   usingDict : st'.usingDict = st.usingDict
   appends : ∃ x, DBuf.Appends st.buf st'.buf x
@@ -20,10 +23,10 @@ structure LoopStep (st st' : FState) : Prop where
   finished_mono : st.finished = true → st'.finished = true
   checksum_keep : st'.finished = false → st'.checksum = st.checksum
 
-theorem LoopStep.refl (st : FState) : LoopStep st st :=
+theorem LoopStep.refl (st : FState σ) : LoopStep st st :=
   ⟨rfl, rfl, ⟨#[], DBuf.Appends.refl _⟩, Nat.le_refl _, Nat.le_refl _, id, fun _ => rfl⟩
 
-theorem LoopStep.trans {a b c : FState} (h1 : LoopStep a b) (h2 : LoopStep b c) : LoopStep a c := by
+theorem LoopStep.trans {a b c : FState σ} (h1 : LoopStep a b) (h2 : LoopStep b c) : LoopStep a c := by
   obtain ⟨x, hx⟩ := h1.appends
   obtain ⟨y, hy⟩ := h2.appends
   refine ⟨h2.header.trans h1.header, h2.usingDict.trans h1.usingDict, ⟨_, hx.trans hy⟩,
@@ -36,7 +39,7 @@ theorem LoopStep.trans {a b c : FState} (h1 : LoopStep a b) (h2 : LoopStep b c) 
     | true => rw [h2.finished_mono hbf] at hf; cases hf
   rw [h2.checksum_keep hf, h1.checksum_keep hb]
 
-theorem LoopStep.wf {st st' : FState} (h : LoopStep st st') (hw : st.WF) : st'.WF := by
+theorem LoopStep.wf {st st' : FState σ} (h : LoopStep st st') (hw : st.WF) : st'.WF := by
   intro hf
   have : st.finished = false := by
     cases hs : st.finished with
@@ -44,20 +47,20 @@ theorem LoopStep.wf {st st' : FState} (h : LoopStep st st') (hw : st.WF) : st'.W
     | true => rw [h.finished_mono hs] at hf; cases hf
   rw [h.checksum_keep hf, hw this]
 
-theorem BlockStep.loopStep {st st' : FState} (h : BlockStep st st') : LoopStep st st' := by
+theorem BlockStep.loopStep {st st' : FState σ} (h : BlockStep st st') : LoopStep st st' := by
   obtain ⟨x, hx, _⟩ := h.appends
   exact ⟨h.header, h.usingDict, ⟨x, hx⟩, h.bytesRead_le, h.blockCounter.1, fun hf => by rw [h.finished, hf],
     fun _ => h.checksum⟩
 
 /-- the strategy test after a non-last block -/
-def stratStop (strat : Strategy) (sizeBefore countBefore : Nat) (st1 : FState) : Bool :=
+def stratStop (strat : Strategy) (sizeBefore countBefore : Nat) (st1 : FState σ) : Bool :=
   match strat with
   | .all => false
   | .uptoBlocks n => st1.blockCounter - countBefore ≥ n
   | .uptoBytes n => st1.buf.content.size - sizeBefore ≥ n
 
 /-- one unfolding of the loop, in a form convenient for rewriting -/
-theorem decodeBlocksLoop_succ (strat : Strategy) (a c fuel : Nat) (st : FState) (s : Src) :
+theorem decodeBlocksLoop_succ (strat : Strategy) (a c fuel : Nat) (st : FState σ) (s : Src) :
     decodeBlocksLoop strat a c (fuel + 1) st s =
       match decodeOneBlock st s with
       | (st1, .err e) => (st1, .err e)
@@ -79,7 +82,7 @@ theorem decodeBlocksLoop_succ (strat : Strategy) (a c fuel : Nat) (st : FState) 
   · rfl
   · cases strat <;> simp [stratStop]
 
-theorem decodeBlocksLoop_step (strat : Strategy) (a c fuel : Nat) (st : FState) (s : Src) :
+theorem decodeBlocksLoop_step (strat : Strategy) (a c fuel : Nat) (st : FState σ) (s : Src) :
     LoopStep st (decodeBlocksLoop strat a c fuel st s).1 := by
   induction fuel generalizing st s with
   | zero => exact LoopStep.refl st
@@ -91,7 +94,7 @@ theorem decodeBlocksLoop_step (strat : Strategy) (a c fuel : Nat) (st : FState) 
     · exact hb
     · rename_i st1 bh s1
       simp only at hb
-      have hfin : ∀ st2 : FState, st2.header = st1.header → st2.usingDict = st1.usingDict →
+      have hfin : ∀ st2 : FState σ, st2.header = st1.header → st2.usingDict = st1.usingDict →
           st2.buf = st1.buf → st1.bytesRead ≤ st2.bytesRead → st2.blockCounter = st1.blockCounter →
           st2.finished = true → LoopStep st st2 := by
         intro st2 h1 h2 h3 h4 h5 h6
@@ -109,7 +112,7 @@ theorem decodeBlocksLoop_step (strat : Strategy) (a c fuel : Nat) (st : FState) 
 
 /-- `consumed_exact` for the block loop: on `Ok` the returned source is the given one minus exactly
 the bytes counted in `bytes_read_counter` -/
-theorem decodeBlocksLoop_ok (strat : Strategy) (a c fuel : Nat) (st st' : FState) (s rest : Src)
+theorem decodeBlocksLoop_ok (strat : Strategy) (a c fuel : Nat) (st st' : FState σ) (s rest : Src)
     (h : decodeBlocksLoop strat a c fuel st s = (st', .ok rest)) :
     ∃ n, n ≤ s.length ∧ rest = s.drop n ∧ st'.bytesRead = st.bytesRead + n := by
   induction fuel generalizing st s with
@@ -143,7 +146,7 @@ theorem decodeBlocksLoop_ok (strat : Strategy) (a c fuel : Nat) (st st' : FState
 
 /-- `fuel_suffices` for `decode_blocks`: every iteration consumes at least 3 source bytes, so any fuel
 above `|source|` gives the same result: the fuel of `Decoder.decodeBlocks` is never exhausted -/
-theorem decodeBlocksLoop_fuel (strat : Strategy) (a c f1 f2 : Nat) (st : FState) (s : Src)
+theorem decodeBlocksLoop_fuel (strat : Strategy) (a c f1 f2 : Nat) (st : FState σ) (s : Src)
     (h1 : s.length < f1) (h2 : s.length < f2) :
     decodeBlocksLoop strat a c f1 st s = decodeBlocksLoop strat a c f2 st s := by
   induction f1 generalizing f2 st s with
@@ -166,7 +169,7 @@ theorem decodeBlocksLoop_fuel (strat : Strategy) (a c f1 f2 : Nat) (st : FState)
 
 /-- memory bound of the loop under `UptoBytes n`: it stops as soon as `n` bytes were added, and one
 block adds at most `MAX_BLOCK_SIZE` -/
-theorem decodeBlocksLoop_bound_bytes (n a c fuel : Nat) (st : FState) (s : Src)
+theorem decodeBlocksLoop_bound_bytes (n a c fuel : Nat) (st : FState σ) (s : Src)
     (h : st.buf.content.size ≤ a + n) :
     (decodeBlocksLoop (.uptoBytes n) a c fuel st s).1.buf.content.size ≤ a + n + Gen.maxBlockSize := by
   induction fuel generalizing st s with
@@ -192,7 +195,7 @@ theorem decodeBlocksLoop_bound_bytes (n a c fuel : Nat) (st : FState) (s : Src)
 
 /-- memory bound under `UptoBlocks k`: at most `max k 1` blocks are decoded (the loop tests the
 budget only after a block) -/
-theorem decodeBlocksLoop_bound_blocks (k a c fuel : Nat) (st : FState) (s : Src)
+theorem decodeBlocksLoop_bound_blocks (k a c fuel : Nat) (st : FState σ) (s : Src)
     (hc : c ≤ st.blockCounter) (h : st.blockCounter - c < max k 1) :
     (decodeBlocksLoop (.uptoBlocks k) a c fuel st s).1.buf.content.size
       ≤ st.buf.content.size + (max k 1 - (st.blockCounter - c)) * Gen.maxBlockSize := by
@@ -232,14 +235,14 @@ def IsPrefix (a b : Array Nat) : Prop := ∃ y, b = a ++ y
 theorem IsPrefix.refl (a : Array Nat) : IsPrefix a a := ⟨#[], by simp⟩
 theorem IsPrefix.trans {a b c : Array Nat} (h1 : IsPrefix a b) (h2 : IsPrefix b c) : IsPrefix a c := by
   obtain ⟨x, rfl⟩ := h1; obtain ⟨y, rfl⟩ := h2; exact ⟨x ++ y, by rw [Array.append_assoc]⟩
-theorem LoopStep.isPrefix {st st' : FState} (h : LoopStep st st') : IsPrefix st.buf.content st'.buf.content := by
+theorem LoopStep.isPrefix {st st' : FState σ} (h : LoopStep st st') : IsPrefix st.buf.content st'.buf.content := by
   obtain ⟨x, hx⟩ := h.appends; exact ⟨x, hx.content⟩
 
 /-- Truncation (`prefix_errors`) for the block loop.  If the run on `s` completes the frame (last block
 and, when flagged, the checksum) leaving `rest`, then on every strictly shorter cut `s.take k` the run
 ends in `UnexpectedEof` at the block header, the block body or the checksum; the frame is not
 reported finished; and what is buffered at that point is a prefix of what the full run buffers. -/
-theorem decodeBlocksLoop_take (strat : Strategy) (a c fuel fuel' : Nat) (st st' : FState) (s rest : Src) (k : Nat)
+theorem decodeBlocksLoop_take (strat : Strategy) (a c fuel fuel' : Nat) (st st' : FState σ) (s rest : Src) (k : Nat)
     (h : decodeBlocksLoop strat a c fuel st s = (st', .ok rest)) (hfin : st'.finished = true)
     (hnf : st.finished = false) (hcs : st.checksum = none)
     (hk : k < s.length - rest.length) (hf : k < fuel') :
